@@ -1027,6 +1027,11 @@ class Engine:
             return [(st, LoggerVal())]
         if isinstance(o, SuperProxy):
             return [(st, PyBoundBuiltin(o, name))]
+        if isinstance(o, ClassRef):
+            q = f"{o.qualname}.{name}"
+            if q in extract.functions():
+                return [(st, BoundMethod(q, None))]
+            raise EngineUnsupported(f"class attribute {q}")
         if isinstance(o, ExcValue):
             raise EngineUnsupported("attribute of exception value")
         if isinstance(o, (Sym, dict, str, bytes, tuple, list)) or o is int or o is bytes:
